@@ -7,7 +7,7 @@ use crate::gen::{self, PathCfg, PathGen};
 use crate::monitor::{guard, Ctx};
 use crate::prng::Rng;
 use crate::refcodec;
-use crate::refops::KP;
+use crate::refops::{self, Edit, KP};
 use crate::refpath;
 use crate::tree::{hex, Tree};
 use jsonb::jsonpath::{parse_json_path, Mode, Selector};
@@ -18,6 +18,18 @@ pub struct Call {
     pub describe: String,
     /// Ok(()) / Err(display)
     pub f: Box<dyn Fn(&mut Vec<u8>, &mut Vec<u64>) -> Result<(), String>>,
+    /// the documented error this call must end in (wrong container kind, duplicate key ...)
+    pub must_err: Option<&'static str>,
+    /// a call that is cut short by a part that is not JSONB: run on scratch buffers between the
+    /// judged calls, its own outcome is not judged
+    pub hostile: bool,
+}
+
+fn documented(e: Edit) -> Option<&'static str> {
+    match e {
+        Edit::Err(x) => Some(x),
+        Edit::Ok(_) => None,
+    }
 }
 
 fn e<E: std::fmt::Debug>(r: Result<(), E>) -> Result<(), String> {
@@ -27,22 +39,29 @@ fn e<E: std::fmt::Debug>(r: Result<(), E>) -> Result<(), String> {
 pub fn random_call(rng: &mut Rng, pool: &[Tree]) -> Call {
     let t = rng.pick(pool).clone();
     let u = rng.pick(pool).clone();
-    let (a, b) = (refcodec::encode(&t), refcodec::encode(&u));
+    // the document as JSONB, or (one call in four, finite numbers only) as JSON text
+    let as_text = t.all_finite() && rng.chance(1, 4);
+    let a = if as_text { crate::refjson::compact(&t) } else { refcodec::encode(&t) };
+    let b = refcodec::encode(&u);
     let name_arg: String = match &t {
         Tree::Obj(v) if !v.is_empty() && rng.chance(3, 4) => v[rng.below(v.len())].0.clone(),
         _ => gen::key(rng),
     };
     let pos = rng.range(-4, 4) as i32;
     let kp: Vec<KP> = gen::keypath_for(&t, rng);
-    let keys: Vec<String> = {
+    let keys: Vec<String> = if rng.chance(1, 6) {
+        Vec::new()
+    } else {
         let mut k = vec![gen::key(rng)];
         if let Tree::Obj(v) = &t {
             k.extend(v.iter().take(2).map(|(k, _)| k.clone()));
         }
         k
     };
-    let desc = format!("doc={} other={} name={:?} pos={} keypath={:?} keys={:?}", t.show(), u.show(), name_arg, pos, kp, keys);
-    let which = rng.below(24);
+    let mut must_err: Option<&'static str> = None;
+    let mut hostile = false;
+    let desc = format!("doc{}={} other={} name={:?} pos={} keypath={:?} keys={:?}", if as_text { "(as text)" } else { "" }, t.show(), u.show(), name_arg, pos, kp, keys);
+    let which = rng.below(26);
     let (name, f): (&str, Box<dyn Fn(&mut Vec<u8>, &mut Vec<u64>) -> Result<(), String>>) = match which {
         0 => ("Value::write_to_vec", {
             let v = t.to_value();
@@ -53,12 +72,14 @@ pub fn random_call(rng: &mut Rng, pool: &[Tree]) -> Call {
         }),
         1 => ("build_array", {
             let k = rng.below(4);
+            let a = refcodec::encode(&t);
             let parts: Vec<Vec<u8>> = (0..k).map(|_| if rng.bool() { a.clone() } else { b.clone() }).collect();
             Box::new(move |d, _| e(jsonb::build_array(parts.iter().map(|x| x.as_slice()), d)))
         }),
         2 => ("build_object", {
             // keys in arbitrary order, sometimes repeated (the last of duplicate keys wins)
             let k = rng.below(5);
+            let a = refcodec::encode(&t);
             let mut parts: Vec<(String, Vec<u8>)> = (0..k).map(|_| (gen::key(rng), if rng.bool() { a.clone() } else { b.clone() })).collect();
             if !parts.is_empty() && rng.chance(1, 2) {
                 let d = (parts[rng.below(parts.len())].0.clone(), b.clone());
@@ -67,9 +88,16 @@ pub fn random_call(rng: &mut Rng, pool: &[Tree]) -> Call {
             Box::new(move |d, _| e(jsonb::build_object(parts.iter().map(|(k, x)| (k.as_str(), x.as_slice())), d)))
         }),
         3 => ("concat", Box::new(move |d, _| e(jsonb::concat(&a, &b, d)))),
-        4 => ("delete_by_name", Box::new(move |d, _| e(jsonb::delete_by_name(&a, &name_arg, d)))),
-        5 => ("delete_by_index", Box::new(move |d, _| e(jsonb::delete_by_index(&a, pos, d)))),
+        4 => ("delete_by_name", {
+            must_err = documented(refops::delete_by_name(&t, &name_arg));
+            Box::new(move |d, _| e(jsonb::delete_by_name(&a, &name_arg, d)))
+        }),
+        5 => ("delete_by_index", {
+            must_err = documented(refops::delete_by_index(&t, pos));
+            Box::new(move |d, _| e(jsonb::delete_by_index(&a, pos, d)))
+        }),
         6 => ("delete_by_keypath", {
+            must_err = documented(refops::delete_by_keypath(&t, &kp));
             let lp = lib_keypath(&kp);
             Box::new(move |d, _| e(jsonb::delete_by_keypath(&a, lp.iter(), d)))
         }),
@@ -79,16 +107,34 @@ pub fn random_call(rng: &mut Rng, pool: &[Tree]) -> Call {
         10 => ("array_except", Box::new(move |d, _| e(jsonb::array_except(&a, &b, d)))),
         11 => ("object_insert", {
             let upd = rng.bool();
+            must_err = documented(refops::object_insert(&t, &name_arg, &u, upd));
             Box::new(move |d, _| e(jsonb::object_insert(&a, &name_arg, &b, upd, d)))
         }),
-        12 => ("object_delete", Box::new(move |d, _| {
-            let set: BTreeSet<&str> = keys.iter().map(|s| s.as_str()).collect();
-            e(jsonb::object_delete(&a, &set, d))
-        })),
-        13 => ("object_pick", Box::new(move |d, _| {
-            let set: BTreeSet<&str> = keys.iter().map(|s| s.as_str()).collect();
-            e(jsonb::object_pick(&a, &set, d))
-        })),
+        12 => ("object_delete", {
+            must_err = documented(refops::object_delete(&t, &keys));
+            Box::new(move |d, _| {
+                let set: BTreeSet<&str> = keys.iter().map(|s| s.as_str()).collect();
+                e(jsonb::object_delete(&a, &set, d))
+            })
+        }),
+        13 => ("object_pick", {
+            must_err = documented(refops::object_pick(&t, &keys));
+            Box::new(move |d, _| {
+                let set: BTreeSet<&str> = keys.iter().map(|s| s.as_str()).collect();
+                e(jsonb::object_pick(&a, &set, d))
+            })
+        }),
+        24 => ("hostile(build)", {
+            hostile = true;
+            let a = refcodec::encode(&t);
+            let bad: Vec<u8> = rng.pick(&[&b"true"[..], b"\x20", b"", b"\x80\x00", b"\xc0\x00\x00\x01", b"[1]"]).to_vec();
+            Box::new(move |d, _| {
+                let _ = jsonb::build_array([a.as_slice(), b.as_slice(), bad.as_slice(), a.as_slice()], d);
+                let mut d2 = Vec::new();
+                let _ = jsonb::build_object([("k", a.as_slice()), ("l", b.as_slice()), ("z", bad.as_slice())], &mut d2);
+                Ok(())
+            })
+        }),
         14 => ("strip_nulls", Box::new(move |d, _| e(jsonb::strip_nulls(&a, d)))),
         15 => ("convert_to_comparable", Box::new(move |d, _| {
             jsonb::convert_to_comparable(&a, d);
@@ -99,7 +145,7 @@ pub fn random_call(rng: &mut Rng, pool: &[Tree]) -> Call {
             Box::new(move |d, _| n.compact_encode(d).map(|_| ()).map_err(|x| format!("{:?}", x)))
         }),
         17 => ("LazyValue::write_to_vec", {
-            let text = if rng.bool() { a.clone() } else { crate::refjson::compact(&if t.all_finite() { t.clone() } else { Tree::Null }) };
+            let text = if rng.bool() { refcodec::encode(&t) } else { crate::refjson::compact(&if t.all_finite() { t.clone() } else { Tree::Null }) };
             Box::new(move |d, _| match jsonb::parse_lazy_value(&text) {
                 Ok(lv) => {
                     lv.write_to_vec(d);
@@ -114,12 +160,16 @@ pub fn random_call(rng: &mut Rng, pool: &[Tree]) -> Call {
             let cfg = PathCfg { max_steps: 3, filters: true, big_indices: false };
             let p = pg.guided_path(rng, &cfg, &t);
             let text = refpath::render(&p, &refpath::PLAIN, rng);
-            let mode = which % 7;
+            let mode = if which == 25 { 6 } else { which - 18 };
+            // the selector itself takes JSONB only; the convenience functions also take text
+            let a = if mode >= 3 { refcodec::encode(&t) } else { a };
             let nm = ["get_by_path", "get_by_path_first", "get_by_path_array", "Selector::select(All)", "Selector::select(First)", "Selector::select(Array)", "Selector::select(Mixed)"][mode];
             let desc2 = format!("path={:?} {}", text, desc);
             return Call {
                 name: nm.to_string(),
                 describe: desc2,
+                must_err: None,
+                hostile: false,
                 f: Box::new(move |d, o| {
                     let p = parse_json_path(text.as_bytes()).map_err(|x| format!("parse:{:?}", x))?;
                     match mode {
@@ -136,7 +186,7 @@ pub fn random_call(rng: &mut Rng, pool: &[Tree]) -> Call {
             };
         }
     };
-    Call { name: name.to_string(), describe: desc, f }
+    Call { name: name.to_string(), describe: desc, f, must_err, hostile }
 }
 
 pub fn run_batch(ctx: &mut Ctx, calls: &[Call], start_data: Vec<u8>, start_offs: Vec<u64>) {
@@ -148,6 +198,12 @@ pub fn run_batch(ctx: &mut Ctx, calls: &[Call], start_data: Vec<u8>, start_offs:
         let plen0 = data.len();
         let hist = history.clone();
         let info = || format!("{} ; {} ; earlier calls in this batch: {:?} ; buffer had {} bytes", c.name, c.describe, hist, plen0);
+        if c.hostile {
+            let (mut d0, mut o0) = (Vec::new(), Vec::new());
+            let _ = guard(|| (c.f)(&mut d0, &mut o0));
+            history.push(c.name.clone());
+            continue;
+        }
         // reference run on empty buffers
         let (mut d0, mut o0) = (Vec::new(), Vec::new());
         let r0 = match guard(|| (c.f)(&mut d0, &mut o0)) {
@@ -160,6 +216,9 @@ pub fn run_batch(ctx: &mut Ctx, calls: &[Call], start_data: Vec<u8>, start_offs:
         if matches!(&r0, Err(x) if x.starts_with("parse:")) {
             ctx.count("path.rejected-by-parser(C09 decides)");
             continue;
+        }
+        if let (Some(why), Ok(())) = (c.must_err, &r0) {
+            ctx.violation(&format!("{}/appends-where-documented-error-is-due", c.name), || format!("returned Ok and wrote {} ; documented outcome: Err({}) and nothing appended ; {}", hex(&d0), why, info()));
         }
         let before_d = data.clone();
         let before_o = offs.clone();
